@@ -109,6 +109,13 @@ def cases(tier, rng):
             extra = " extra=" + W.tok(EXTRA[l]) if EXTRA[l] else ""
             out.append("y%d sock %s / attach a %s id=6964%s / %s / %s / dropped a" % (k, l, good, extra, how, PROBE[l]))
             k += 1
+    # on a real listener: a refused connection is reported to the monitor as an accept failure, an admitted one as accepted
+    for l in LOCALS:
+        bad = [p for p in NAMES if (l, p) not in COMPAT][0]
+        out.append("z%d rt %s mon / bind tcp4 / impostor 0 as=%s / impostor 0 as=%s id=6964 / conn 0 / xchg 2 / monitor" % (k, l, bad, bad))
+        k += 1
+        out.append("z%d rt %s mon / bind ipc / impostor 0 as=BOGUS / conn 0 / xchg 1 / monitor" % (k, l))
+        k += 1
     # admission is independent of segmentation (C02 hand-over) and needs no EOF
     for l in LOCALS:
         good = [p for p in NAMES if (l, p) in COMPAT][0]
@@ -123,7 +130,7 @@ _model_cases = {}
 
 
 def compare_filter(line):
-    return not line.startswith(("w", "y"))
+    return not line.startswith(("w", "y", "z"))
 
 
 def model_cases(case_lines):
@@ -134,7 +141,7 @@ def model_cases(case_lines):
         if sp[1] != "sock":
             mc.append(line)
             continue
-        if sp[0].startswith(("u", "w", "y")):
+        if sp[0].startswith(("u", "w", "y", "z")):
             mc.append(line)
             continue
         raw = [t for t in sp if t.startswith("raw=")][0][4:]
@@ -189,6 +196,15 @@ def judge(line, impl_obs, orc):
         return None if impl_obs == want else "socket type name %r -> %s" % (name, impl_obs)
     local = sp[2]
     toks = impl_obs.split()
+    if sp[1] == "rt":
+        nimp = line.count("impostor")
+        mon = [t for t in toks if t.startswith("mon=")]
+        names = mon[0][4:].split(",") if mon and mon[0] != "mon=-" else []
+        if not any(t.startswith("c#") and t.endswith("=ok") for t in toks) or not any(t.startswith("x#") and t.endswith("=ok") for t in toks):
+            return "a compatible peer was not admitted / could not exchange a message on a real listener: " + impl_obs[:160]
+        if names.count("AcceptFailed") != nimp or names.count("Accepted") != 1:
+            return "monitor of a bound %s socket reports %s for %d refused and 1 admitted connection" % (local, ",".join(names) or "nothing", nimp)
+        return None
     if sp[0].startswith("y"):
         if len(toks) < 3 or toks[0] != "att:a=ok:6964" or not toks[1].startswith("att:x=err"):
             return "an incompatible / malformed handshake claiming an established peer's identity: " + impl_obs[:120]
